@@ -1,7 +1,7 @@
 #!/usr/bin/env python3
 """Confirm a seeded change of the two-per-property round and run checks against it.
    seed2_eval.py [--scratch] <ID> <A|B> <check ids…>
-Reads /tmp/seed2/<ID>.out/{patchX.diff,demoX.py,notes.md}; keeps them as /verif/seeded/<ID>-<X>/.
+Reads $SEED_ROOT/<ID>.out/ (default /tmp/seed2){patchX.diff,demoX.py,notes.md}; keeps them as /verif/seeded/<ID>-<X>/.
 Default: applies the patch to /repo (which must be clean), runs demo, pinned tests and the checks, restores /repo.
 --scratch: does the same in a private worktree under /tmp/s2w via CVISE_REPO (for parallel preliminary runs; /repo untouched).
 Evidence of these runs goes to VERIF_EVIDENCE_DIR (never to /verif/evidence)."""
@@ -11,8 +11,9 @@ args = sys.argv[1:]
 scratch = '--scratch' in args
 args = [a for a in args if a != '--scratch']
 ID, X, checks = args[0], args[1], args[2:]
-src = Path(f'/tmp/seed2/{ID}.out')
-name = f'{ID}-{X}'
+root = os.environ.get('SEED_ROOT', '/tmp/seed2')          # round 3: /tmp/seed2 (kept as -A/-B); round 4: /tmp/seed3 (kept as -C/-D)
+src = Path(f'{root}/{ID}.out')
+name = f"{ID}-{ {'A': 'C', 'B': 'D'}[X] if root.endswith('seed3') else X}"
 dst = Path('/verif/seeded') / name
 dst.mkdir(parents=True, exist_ok=True)
 shutil.copy(src / f'patch{X}.diff', dst / 'patch.diff')
